@@ -225,6 +225,31 @@ func cmdWLink(o opts) {
 		return items
 	}
 
+	// largest frames: payloads of exactly 255 bytes that do not shrink (last byte non-zero), as a message and raw
+	largest := func() []witem {
+		for _, m := range com.Messages {
+			if _, ext := sizesOf(defOf(m)); ext == 255 {
+				sh := shapes(defOf(m))
+				full := make([][]B, len(sh))
+				for i, s := range sh {
+					if s.isStr {
+						full[i] = []B{B(bytesOf('Z', s.strlen))}
+					} else {
+						full[i] = make([]B, s.n)
+						for k := range full[i] {
+							full[i][k] = B(bytesOf(0x7E, s.gosize))
+						}
+					}
+				}
+				rwm := drw.GetMessage(m.GetID())
+				pl, _ := safeWrite(rwm, newMsg(m, full), true)
+				return []witem{{kind: "msg", d: ix[reflect.TypeOf(m)], msg: m, vals: full},
+					{kind: "raw", id: int(m.GetID()), payload: pl}}
+			}
+		}
+		return nil
+	}
+
 	key1 := rbytes(r, 32)
 	switch mode {
 	case "c09":
@@ -254,11 +279,19 @@ func cmdWLink(o opts) {
 			cfg := WCfg{V: v, Sys: 1 + r.Intn(255), Comp: []int{0, 1, 7, 255}[r.Intn(4)], Key: B{}, Link: 0}
 			impl := []string{"streamwriter", "framewriter"}[(l/2)%2]
 			tag, items := "long", []witem(nil)
-			if l%8 == 5 { // a short keyed link: signatures cost the monitor SHA-256 per frame
+			if l%8 == 5 || (!thorough && l == 3) { // a short keyed link: signatures cost the monitor SHA-256 per frame
 				cfg.V, cfg.Key, cfg.Link = 2, key1, r.Intn(256)
 				tag, items = "keyed", genItems(60, 2, true)
 			} else {
 				items = genItems(n, v, l%4 != 0)
+			}
+			// the largest frame a link can carry, in the middle of the history and as its last frame (v2 only: the
+			// message that fills 255 bytes has an id above 255 or not - a v1 link refuses it then, which is a refusal like others)
+			if v == 2 || cfg.V == 2 {
+				big := largest()
+				mid := len(items) / 2
+				items = append(items[:mid:mid], append(append([]witem{}, big...), items[mid:]...)...)
+				items = append(items, big...)
 			}
 			lwg.Add(1)
 			go func() {
@@ -316,28 +349,7 @@ func cmdWLink(o opts) {
 				}
 			}
 			if mode == "c06" {
-				// largest frames: payloads of exactly 255 bytes that do not shrink (last byte non-zero)
-				for _, m := range com.Messages {
-					if _, ext := sizesOf(defOf(m)); ext == 255 {
-						sh := shapes(defOf(m))
-						full := make([][]B, len(sh))
-						for i, s := range sh {
-							if s.isStr {
-								full[i] = []B{B(bytesOf('Z', s.strlen))}
-							} else {
-								full[i] = make([]B, s.n)
-								for k := range full[i] {
-									full[i][k] = B(bytesOf(0x7E, s.gosize))
-								}
-							}
-						}
-						items = append(items, witem{kind: "msg", d: ix[reflect.TypeOf(m)], msg: m, vals: full})
-						rwm := drw.GetMessage(m.GetID())
-						pl, _ := safeWrite(rwm, newMsg(m, full), true)
-						items = append(items, witem{kind: "raw", id: int(m.GetID()), payload: pl})
-						break
-					}
-				}
+				items = append(items, largest()...)
 			}
 			runLink(rec, impl, cfg, drw, dl, items, "keyed")
 		}
